@@ -70,6 +70,9 @@ JOBS += [
       restrict_fp=["myth_yield_ex_body.function_pointer_call.%d/verif_steal" % k for k in (1, 2, 3, 4, 5)],
       fuc=["myth_yield_ex_body", "myth_yield_ex_1"], timeout=300),
 ]
+# the public API functions are one-line forwarders to the bodies under contract: checked mechanically (DESIGN 3.5b)
+from units.common_forward import forward_job
+JOBS = list(JOBS) + [forward_job("c02")]
 META = {
  "level": "proof",
  "level_text": "Sequential contracts on the real run-queue operations against the abstract view ptr[base..top): length change, position of the new/removed element, preservation of every other element (witness index) also across re-centring, well-formedness, lock protocol; capacity symbolic in [2, 64] in the quick tier and [2, 512] in the thorough tier (the operations are loop free, the capacity enters only through index arithmetic; 2048 and the real 131072 did not finish); owner pop against an exact SC model of thieves and thief take against the owner (hand-shake on base/top with the fence as interference point); the scheduler glue (sched_loop, default steal, yield) resumes every obtained thread exactly once; init at the real capacity, clear, pass.",
